@@ -604,14 +604,9 @@ def plumbing(ctx):
     ''', {'self': V('self'), 'args': V('args'), 'kwargs': V('kwargs')}, 'cooler.core._selectors')
     ctx.eq(R, 'selector.fetch', r[0].value if r else None, env['out'], ctx.where(f))
     f = ctx.fa('cooler.core._selectors._IndexingMixin._unpack_index')
-    r = returns(f)
-    v = r[-1].value if r else T.NONE
-    k = V('key')
-    sall = T.call(G('slice'), (T.NONE,))
-    ist = T.call(G('isinstance'), (k, G('tuple')))
-    want = T.tup([T.ite(ist, T.sub(k, C(0)), k),
-                  T.ite(ist, T.ite(T.cmp('==', T.call(G('len'), (k,)), C(2)), T.sub(k, C(1)), sall), sall)])
-    ctx.eq(R, 'selector._unpack_index', v, want, ctx.where(f), 'a single key selects rows and all columns')
+    # (_unpack_index - a single key selects rows and all columns - is decided by its reference model,
+    #  REF.core._selectors._IndexingMixin._unpack_index, which compares every exit under its conditions;
+    #  a rule on "the" return value was tied to the function having a single exit)
     # Cooler.matrix._slice forwards its arguments to api.matrix in signature order
     fs = ctx.fa('cooler.api.Cooler.matrix.<locals>._slice')
     mc = calls(fs, 'cooler.api.matrix')
